@@ -23,6 +23,12 @@ Theorem c08_exceptions_justified : forall e, In e map_range_exceptions -> reason
 Proof. exact exceptions_justified. Qed.
 Print Assumptions c08_exceptions_justified.
 
+(* library code takes time, UUIDs and randomness only from the injectable sources (no time.Now, math/rand global
+   functions, crypto/rand, os.Getpid ... in non-test code of the current tree) *)
+Theorem c08_no_ambient_sources : forallb (ambient_ok ambient_allowed) ambient_calls = true.
+Proof. exact no_ambient_sources. Qed.
+Print Assumptions c08_no_ambient_sources.
+
 (* ---- what an accepted shape means --------------------------------------------------------------------- *)
 
 (* a loop body made of accepted statement kinds ends in the same state (maps as lookup functions, slices as
